@@ -163,6 +163,37 @@ class HandlerLog(object):
             cfg.set_handler_method("execute")
 
 
+_ROTATION = [0]
+
+
+def register_children(cfg, nodes, api, log, prefix, sub):
+    """Registers the (sub-)command configurations through one of the public ways, in rotation: one call per
+    configuration, one call with a list, one call with a generator, or create_(sub_)command(name) + configuring
+    the returned object."""
+    if not nodes:
+        return
+    _ROTATION[0] += 1
+    how = _ROTATION[0] % 4
+    if how == 3:
+        for n in nodes:
+            c = cfg.create_sub_command(n["name"]) if sub else cfg.create_command(n["name"])
+            configure_command(c, n, api, log, prefix)
+        return
+    made = []
+    for n in nodes:
+        c = api["CommandConfig"](n["name"])
+        configure_command(c, n, api, log, prefix)
+        made.append(c)
+    if how == 0:
+        for c in made:
+            cfg.add_sub_command_config(c) if sub else cfg.add_command_config(c)
+    elif how == 1:
+        cfg.add_sub_command_configs(made) if sub else cfg.add_command_configs(made)
+    else:
+        gen = (c for c in made)
+        cfg.add_sub_command_configs(gen) if sub else cfg.add_command_configs(gen)
+
+
 def configure_command(cfg, node, api, log, prefix=""):
     Argument, Option = api["Argument"], api["Option"]
     cfg.set_aliases(list(node["aliases"]))
@@ -193,10 +224,7 @@ def configure_command(cfg, node, api, log, prefix=""):
     full_name = (prefix + " " + node["name"]).strip()
     if log is not None:
         log.install(cfg, node, full_name)
-    for s in node["subs"]:
-        sub = api["CommandConfig"](s["name"])
-        configure_command(sub, s, api, log, full_name)
-        cfg.add_sub_command_config(sub)
+    register_children(cfg, node["subs"], api, log, full_name, sub=True)
 
 
 def load_api():
@@ -225,10 +253,7 @@ def build_app(tree, api, log=None, default_config=False, name="app", version="1.
     cfg.set_terminate_after_run(False)
     if io_factory is not None:
         cfg.set_io_factory(io_factory)
-    for n in tree:
-        c = api["CommandConfig"](n["name"])
-        configure_command(c, n, api, log)
-        cfg.add_command_config(c)
+    register_children(cfg, tree, api, log, "", sub=False)
     if tweak is not None:
         tweak(cfg)
     return api["ConsoleApplication"](cfg), cfg
